@@ -118,6 +118,13 @@ def agree_stage(ctx):
 
 def stage(ctx):
     storage_stage(ctx); agree_stage(ctx)
+    # sparse interface: what setup()/update(P) store for P (coq/SparseUpdateP.v) vs the real code on raw caller arrays
+    try:
+        import updatep_stage
+        updatep_stage.updatep_stage(ctx)
+    except Exception:
+        import traceback
+        ctx.ob("correspondence:updatep-model", "correspondence", False, "stage failed: " + traceback.format_exc()[-800:])
 
 def run(ctx):
     return run_solver_property(ctx, "C10", codes=("C10",), focus_mix=("mixed", "single", "updates"), n_quick=30, extra_stage=stage,
